@@ -9,58 +9,73 @@
 (* is deterministic: unlogged steps (StartPass, a Visit that places        *)
 (* nothing, EndBreak, ...) run freely, logged steps need the next event to *)
 (* be exactly theirs.  A trace that cannot be consumed deadlocks.          *)
+(* Every execution starts with {"e":"ModKinds","kinds":[..]}: the kind of  *)
+(* every library whose database was given (known to the check, which made  *)
+(* the headers), in name order; ranks in the other events refer to it.     *)
+(* The ModDep events must then be exactly the keys the two loops collect   *)
+(* (KeysAreContributors: function-only libraries included), in map order.  *)
 (***************************************************************************)
 EXTENDS ModuleInit, Json, IOUtils
 
 Tr == ndJsonDeserialize(IOEnv.VERIF_TRACE)
 NTr == Len(Tr)
 
-VARIABLE l
-tvars == <<vars, l>>
+VARIABLES l,
+          seen      \* number of ModDep events of this execution so far
+tvars == <<vars, l, seen>>
 
 IsE(i, e) == i <= NTr /\ Tr[i].e = e
-Ours == {"ModDep", "ModPlace", "ModReport", "ModBreak", "Reset"}
+Ours == {"ModKinds", "ModDep", "ModPlace", "ModReport", "ModBreak", "Reset"}
 SeqSet(s) == {s[i] : i \in 1..Len(s)}
 
-Idle(g) ==
-  /\ orig' = g /\ deps' = g /\ placed' = <<>> /\ pc' = "load" /\ idx' = 1
+Idle(k, g) ==
+  /\ kind' = k /\ orig' = g /\ deps' = g /\ placed' = <<>> /\ pc' = "load" /\ idx' = 1
   /\ addedAny' = FALSE /\ broken' = {} /\ cycles' = <<>> /\ nreports' = 0
 
+NoEdges(k) == [i \in DOMAIN k |-> {}]
+
 TInit ==
+  /\ seen = 0 /\ kind = <<>>
   /\ orig = <<>> /\ deps = <<>> /\ placed = <<>> /\ pc = "load" /\ idx = 1
   /\ addedAny = FALSE /\ broken = {} /\ cycles = <<>> /\ nreports = 0
   /\ l = 1
 
 \* a new execution: only allowed when the previous one ran to completion
 TReset ==
-  /\ IsE(l, "Reset") /\ (pc = "load" \/ Done)
-  /\ Idle(<<>>) /\ l' = l + 1
+  /\ IsE(l, "Reset") /\ ((pc = "load" /\ seen = N) \/ Done)
+  /\ Idle(<<>>, <<>>) /\ l' = l + 1 /\ seen' = 0
+
+TKinds ==
+  /\ IsE(l, "ModKinds") /\ pc = "load" /\ kind = <<>>
+  /\ Idle(Tr[l].kinds, NoEdges(Tr[l].kinds)) /\ l' = l + 1 /\ seen' = 0
 
 \* the dependency map, one key per event, in map order
 TDep ==
-  /\ IsE(l, "ModDep") /\ pc = "load" /\ Tr[l].lib = Len(orig) + 1
-  /\ Idle(Append(orig, SeqSet(Tr[l].deps)))
-  /\ l' = l + 1
+  /\ IsE(l, "ModDep") /\ pc = "load" /\ seen < N /\ Tr[l].lib = Lib(seen + 1)
+  /\ Idle(kind, [orig EXCEPT ![Tr[l].lib] = SeqSet(Tr[l].deps)])
+  /\ l' = l + 1 /\ seen' = seen + 1
 
 TBegin ==
-  /\ pc = "load" /\ Len(orig) > 0 /\ ~IsE(l, "ModDep")
+  /\ pc = "load" /\ N > 0 /\ seen = N /\ ~IsE(l, "ModDep")
   /\ \A a \in Libs : orig[a] \subseteq Libs \ {a}      \* the domain of the spec
   /\ pc' = "start"
-  /\ UNCHANGED <<orig, deps, placed, idx, addedAny, broken, cycles, nreports, l>>
+  /\ UNCHANGED <<kind, orig, deps, placed, idx, addedAny, broken, cycles, nreports, l, seen>>
 
-TStartPass == StartPass /\ l' = l
+TStartPass == StartPass /\ l' = l /\ UNCHANGED seen
 
 TVisit ==
   /\ Visit
   /\ IF placed' # placed
-       THEN IsE(l, "ModPlace") /\ Tr[l].lib = idx /\ l' = l + 1
+       THEN IsE(l, "ModPlace") /\ Tr[l].lib = Lib(idx) /\ l' = l + 1
        ELSE l' = l
+  /\ UNCHANGED seen
 
 TEndPass ==
   /\ EndPass
   /\ IF nreports' # nreports
        THEN IsE(l, "ModReport") /\ l' = l + 1
        ELSE l' = l
+  /\ UNCHANGED seen
 
 TBreak ==
   /\ Break
@@ -70,17 +85,18 @@ TBreak ==
                  Tr[l].from = c[1] /\ Tr[l].to = c[2] /\ Tr[l].len = Len(c)
             /\ l' = l + 1
        ELSE l' = l
+  /\ UNCHANGED seen
 
-TEndBreak == EndBreak /\ l' = l
+TEndBreak == EndBreak /\ l' = l /\ UNCHANGED seen
 
 \* events of other hook families recorded in the same file are not ours
 TForeign ==
   /\ l <= NTr /\ Tr[l].e \notin Ours
-  /\ UNCHANGED vars /\ l' = l + 1
+  /\ UNCHANGED vars /\ l' = l + 1 /\ UNCHANGED seen
 
-TDone == l = NTr + 1 /\ (Done \/ (pc = "load" /\ Len(orig) = 0)) /\ UNCHANGED tvars
+TDone == l = NTr + 1 /\ (Done \/ (pc = "load" /\ N = 0)) /\ UNCHANGED tvars
 
-TNext == TReset \/ TDep \/ TBegin \/ TStartPass \/ TVisit \/ TEndPass \/ TBreak \/ TEndBreak
+TNext == TReset \/ TKinds \/ TDep \/ TBegin \/ TStartPass \/ TVisit \/ TEndPass \/ TBreak \/ TEndBreak
          \/ TForeign \/ TDone
 
 TSpec == TInit /\ [][TNext]_tvars
